@@ -19,7 +19,8 @@ N_STRESS = {"quick": 20, "thorough": 3000}
 RULE = (
     "histories over {resize (cells and/or pixels), enable/disable_win_size_swap, enable/disable_queries, "
     "set_cell_ratio(FIXED | DYNAMIC | float), reads of get_cell_size / get_cell_ratio / a terminal_size_cached "
-    "probe / a cached probe} on a real pty (pixel size by ioctl, or zero so that the scripted terminal answers "
+    "probe / a cached probe / starting a subprocess (odd shards; the library then moves its cache and lock into "
+    "shared memory)} on a real pty (pixel size by ioctl, or zero so that the scripted terminal answers "
     "XTWINOPS), compared step by step with a model of what a fresh computation gives; plus thread stress: 2..16 "
     "threads released by a barrier make simultaneous first calls of memoized probes under line-level yield "
     "injection (sys.monitoring) and the body executions are counted; distinct = distinct histories / stress "
@@ -81,7 +82,24 @@ class Model:
         self.cache = ((cols, rows), set(value) if isinstance(value, set) else {value})
 
 
-def run_history(seed, env, res, probes):
+def _noop():
+    pass
+
+
+_STARTED = [False]
+
+
+def start_subprocess(res):
+    import multiprocessing as mp
+
+    pr = mp.Process(target=_noop)  # the class the library hooks (a context's own Process class is another one)
+    pr.start()
+    pr.join(20)
+    _STARTED[0] = True
+    res.count("subprocesses started between reads")
+
+
+def run_history(seed, env, res, probes, allow_subprocess=False):
     import term_image
     from term_image import AutoCellRatio, utils
     from term_image.exceptions import TermImageError
@@ -90,10 +108,10 @@ def run_history(seed, env, res, probes):
     m = Model()
     p = env.persona
     ops = []
-    case = dict(seed=seed)
+    case = dict(seed=seed, sub=allow_subprocess, after_process_start=_STARTED[0])
 
     def fail(key, msg):
-        res.violation("C15:" + key, "%s [history %s]" % (msg, ops[-10:]), case)
+        res.violation("C15:" + key, "%s [history %s%s]" % (msg, ops[-10:], "; a subprocess had been started before" if case["after_process_start"] or "subprocess" in ops else ""), case)
 
     # known start state
     env.set_winsize(*m.term)
@@ -106,7 +124,7 @@ def run_history(seed, env, res, probes):
     sizes_seen = []
     steps = rnd.randint(5, 40)
     for step in range(steps):
-        op = rnd.choice(["resize", "resize", "resize_back", "resize_back", "pixels", "swap_on", "swap_off", "q_on", "q_off", "ratio", "xt", "read", "read", "read", "read_ratio", "probe", "probe", "read_colours", "read_name"])
+        op = rnd.choice(["resize", "resize", "resize_back", "resize_back", "pixels", "swap_on", "swap_off", "q_on", "q_off", "ratio", "xt", "read", "read", "read", "read_ratio", "probe", "probe", "read_colours", "read_name"] + (["subprocess"] if allow_subprocess else []))
         ops.append(op)
         if m.term[:2] not in sizes_seen:
             sizes_seen.append(m.term[:2])
@@ -130,6 +148,10 @@ def run_history(seed, env, res, probes):
             cw, ch = rnd.randint(1, 30), rnd.randint(1, 40)
             m.term = (cols, rows, cols * cw, rows * ch)
             env.set_winsize(*m.term)
+        elif op == "subprocess":
+            # starting a process makes the library move its cell-size cache (and the terminal
+            # lock) into shared memory; nothing observable may change, now or later
+            start_subprocess(res)
         elif op == "swap_on":
             term_image.enable_win_size_swap()
             if not m.swap:
@@ -397,12 +419,14 @@ def run_shard(shard, env):
             if c.get("kind") == "stress":
                 stress_round(c["seed"], env, res, probes)
             else:
-                run_history(c["seed"], env, res, probes)
+                if c.get("after_process_start"):
+                    start_subprocess(res)
+                run_history(c["seed"], env, res, probes, c.get("sub", False))
             return res.as_dict()
         rnd = random.Random("%s/c15/%s" % (shard["seed"], shard["index"]))
         for _ in range(shard["hists"]):
             seed = rnd.getrandbits(40)
-            run_history(seed, env, res, probes)
+            run_history(seed, env, res, probes, shard["index"] % 2 == 1)
             if len(res.samples) < 2:
                 res.sample(dict(seed=seed, kind="history"))
             if res.too_many():
